@@ -15,12 +15,13 @@ search():     differential on the real code: results, agent states and edge tabl
 import json
 import numpy as np
 from harness import impl, snap
-from harness.props import c04
+from harness.props import c04, c02_graph
 
 PROP = 'C02'
 GENERATED = ['SeedFacts', 'GlobalReads']
 DRIVER = 'Drivers/C02.lean'
-DRIVER_MODULES = ['StarsimModel.Model.Footprint', 'StarsimModel.Model.Proto']
+DRIVER_MODULES = ['StarsimModel.Model.Footprint', 'StarsimModel.Model.Proto', 'StarsimModel.Model.Search']
+SEARCH_DRIVER = 'Drivers/C02Search.lean'
 RULE = ('generated base configurations x null perturbations {sampling-only intervention / analyzer with 0-5 own dists of random families at any '
         'list position, ghost disease (beta=0 or independent, no deaths), zero-coverage or zero-efficacy vaccination, permutation of diseases}; '
         'distinct = distinct (base, perturbation); non-trivial = the perturbation adds at least one distribution or module')
@@ -87,9 +88,14 @@ def gen_pert(rng, cfg):
     if cfg.get('unit') == 'year' and cfg.get('dt') in (1.0, 0.5, 0.25) and float(cfg['start']).is_integer():
         kinds.append('zero_vx')   # routine delivery windows are given in years and must lie on the time grid
     if len(cfg['diseases']) >= 2: kinds.append('permute_diseases')
+    free_nets = [t for t in ('static', 'mf', 'erdosrenyi') if t not in {n['type'] for n in cfg['networks']}]
+    if free_nets: kinds += ['ghost_network', 'ghost_network']
     kind = rng.choice(kinds)
     p = dict(kind=kind)
-    if kind.startswith('ghost'):
+    if kind == 'ghost_network':
+        # a contact network over which nothing is transmitted (beta 0 for every disease), anywhere in the list
+        p['net'] = rng.choice(free_nets); p['first'] = rng.random() < 0.6
+    if kind.startswith('ghost') and kind != 'ghost_network':
         p['fams'] = [rng.choice(FAMS) for _ in range(rng.randint(0, 5))]
         p['name'] = rng.choice(['ghost', 'zz_probe', 'a_probe'])
         p['second'] = rng.random() < 0.3      # add two of them
@@ -138,6 +144,16 @@ def build(cfg, pert=None):
             cfg['interventions'] = ([z] + have) if pert.get('before', True) else (have + [z])
         elif k == 'permute_diseases':
             cfg['diseases'] = cfg['diseases'][::-1]
+        elif k == 'ghost_network':
+            g = dict(static=dict(type='static', n_contacts=4), mf=dict(type='mf', duration=3), erdosrenyi=dict(type='erdosrenyi', p=0.05))[pert['net']]
+            for d in cfg['diseases']:
+                b = d.get('beta', 0.1)
+                d['beta'] = {n['type']: b for n in cfg['networks']}
+                d['beta'][pert['net']] = 0
+            if pert.get('base_only'):       # the base of the comparison: the same per-network spelling of beta, without the ghost
+                for d in cfg['diseases']: d['beta'].pop(pert['net'])
+            else:
+                cfg['networks'] = ([g] + cfg['networks']) if pert['first'] else (cfg['networks'] + [g])
     over = dict(connectors=ec) if ec else {}
     return impl.build_sim(cfg, extra_interventions=ei, extra_analyzers=ea, **over)
 
@@ -150,9 +166,17 @@ def run_recorded(cfg, pert):
     """ run with Dist.rvs wrapped; returns (sim, {trace: [(ind, size)…]}, own-jump violations) """
     import starsim as ss
     D = ss.Dist
-    orig_rvs, orig_jump_dt = D.rvs, ss.Dists.jump_dt
+    orig_rvs, orig_jump_dt, orig_init = D.rvs, ss.Dists.jump_dt, ss.Dists.init
     calls = {}
     foreign = []
+    graph = {}
+    def wi(self, obj=None, base_seed=None, sim=None, force=False):
+        # the object graph handed to sc.search by the simulation's own Dists.init (the first call: Sim.init_dists)
+        o = obj if obj is not None else self.obj
+        if 'G' not in graph and isinstance(o, ss.Sim):
+            try: graph['G'] = c02_graph.export(o)
+            except Exception as e: graph['G'] = None; graph['err'] = f'{type(e).__name__}: {e}'
+        return orig_init(self, obj=obj, base_seed=base_seed, sim=sim, force=force)
     def w(self, n=1, reset=False):
         ind = int(self.ind)
         out = orig_rvs(self, n, reset=reset)
@@ -168,11 +192,13 @@ def run_recorded(cfg, pert):
             if isinstance(owner, ss.Module) and d.module is not owner:
                 foreign.append((getattr(owner, 'name', '?'), d.trace))
         return orig_jump_dt(self, ti=ti, force=force)
-    D.rvs = w; ss.Dists.jump_dt = wj
+    D.rvs = w; ss.Dists.jump_dt = wj; ss.Dists.init = wi
     try:
-        sim = build(cfg, pert); sim.init(); sim.run()
+        sim = build(cfg, pert); sim.init()
+        sim._c02_graph = graph.get('G'); sim._c02_registry_at_init = list(sim.dists.dists.keys())
+        sim.run()
     finally:
-        D.rvs = orig_rvs; ss.Dists.jump_dt = orig_jump_dt
+        D.rvs = orig_rvs; ss.Dists.jump_dt = orig_jump_dt; ss.Dists.init = orig_init
     return sim, calls, foreign
 
 
@@ -212,7 +238,7 @@ def blocks(base_keys, pert_keys):
 
 def correspond(ctx):
     modulo = 10**9
-    lines = []; plan = []
+    lines = []; plan = []; searches = []
     n = ctx.budget(12, 80)
     for _ in range(n):
         cfg = gen_base(ctx.rng)
@@ -220,7 +246,7 @@ def correspond(ctx):
         if not applicable(cfg, pert):
             cfg['diseases'] = [dict(type='sir', beta=0.3, init_prev=0.1, dur_inf=5, p_death=0)] + [d for d in cfg['diseases'] if d['type'] != 'sir']
         try:
-            sa, ca, fa = run_recorded(cfg, None)
+            sa, ca, fa = run_recorded(cfg, dict(pert, base_only=True) if pert['kind'] == 'ghost_network' else None)
             sb, cb, fb = run_recorded(cfg, pert)
         except Exception as e:
             ctx.broke('correspondence', 'C02.run', f'{type(e).__name__}: {e}', data=dict(cfg=cfg, pert=pert)); continue
@@ -228,6 +254,7 @@ def correspond(ctx):
         ctx.case(('pert', json.dumps(cfg, sort_keys=True), json.dumps(pert, sort_keys=True)), len(kb) != len(ka) or pert['kind'] in ('permute_diseases', 'zero_vx', 'extra_disease'),
                  sample=dict(kind='registry+calls', perturbation=pert, base_dists=len(ka), perturbed_dists=len(kb)))
         ctx.count('pert:' + pert['kind'])
+        searches.append(dict(cfg=cfg, pert=pert, base=sa, perturbed=sb))
         # (3) ownership of jumps
         for who, tr in fa + fb:
             ctx.broke('correspondence', 'C02.jump_own', f'start_step of `{who}` advanced `{tr}`, a distribution it does not own', data=dict(cfg=cfg, pert=pert)); break
@@ -257,6 +284,7 @@ def correspond(ctx):
                           data=dict(cfg=cfg, pert=pert, trace=tr))
                 break
         ctx.count('base_dists_compared', len(ka))
+    correspond_search(ctx, searches)
     out = ctx.drive(DRIVER, lines) if lines else []
     for p in plan:
         res = out[p['off']:p['off'] + p['n']]
@@ -275,9 +303,88 @@ def correspond(ctx):
                       data=dict(cfg=p['cfg'], pert=p['pert'], model=got[:40], real=p['kb'][:40]))
 
 
+def added_objects(G, sim_b, sim_a):
+    """ the objects of the perturbed graph that the base simulation does not have: what is no longer reachable from the
+        root once the edges INTO the added modules are cut — edges whose target is an added module instance and edges keyed
+        by an added module's name (sim.pars[name] is module.pars, sim.results[name] is module.results).  That the rest IS
+        the base simulation is not assumed: check (d) compares it with the base simulation's own registry. """
+    base_names = {m.name for m in sim_a.modules}
+    added = [m for m in sim_b.modules if m.name not in base_names and id(m) in G['ids']]
+    roots = {G['ids'][id(m)] for m in added}; names = {m.name for m in added}
+    nodes = G['nodes']
+    old = set(); st = [G['root']]
+    while st:
+        x = st.pop()
+        if x in old: continue
+        old.add(x); st.extend(c for k, c in nodes[x][2] if c not in roots and k not in names)
+    # objects from which no distribution can be reached (library singletons such as scipy's `lognorm_gen`, dtypes, plain
+    # containers) are irrelevant to the names of distributions and may be met first from either side: they are counted
+    # with the added objects, i.e. the theorem is applied with `old` = base objects that lead to a distribution
+    rev = {}
+    for x, (_, _, kids) in enumerate(nodes):
+        for _, c in kids: rev.setdefault(c, []).append(x)
+    bearing = set(); st = [i for i, n in enumerate(nodes) if n[1]]
+    while st:
+        x = st.pop()
+        if x in bearing: continue
+        bearing.add(x); st.extend(rev.get(x, []))
+    old = (old & bearing) | {G['root']}
+    return sorted(set(range(len(nodes))) - old), roots
+
+
+def correspond_search(ctx, searches):
+    """ Model/Search.lean against sciris on the REAL object graphs, and the hypotheses / instances of C02_search_frame:
+        (a) the model's search of the perturbed graph names the distributions exactly as sc.search did (order included);
+        (b) the search is safe (every reference from an added object back to an old iterable one is already memoised);
+        (c) the search of the graph without the added objects finds the old distributions under the same names;
+        (d) and those are the names in the base simulation's own registry. """
+    lines = []; plan = []
+    for c in searches:
+        sb, sa = c['perturbed'], c['base']
+        G = getattr(sb, '_c02_graph', None)
+        data = dict(cfg=c['cfg'], pert=c['pert'])
+        if G is None:
+            ctx.broke('correspondence', 'C02.search', 'the object graph of the simulation could not be exported', data=data); continue
+        new, roots = added_objects(G, sb, sa)
+        fuel = 4 * sum(len(n[2]) for n in G['nodes']) + 10
+        seq = c02_graph.to_lines(G) + ['new ' + ' '.join(map(str, new)), f'search 0 {fuel}', f'safe 0 {fuel}', f'sub 0 {fuel}', f'registry 0 {fuel}']
+        plan.append(dict(c=c, off=len(lines), n=len(seq), new=set(new), n_roots=len(roots), nodes=len(G['nodes'])))
+        lines += seq
+    out = ctx.drive(SEARCH_DRIVER, lines) if lines else []
+    def esc(s): return ''.join(ch if (ch.isalnum() or ch in '_.-') else '%%%04x' % ord(ch) for ch in s)
+    def parse(l):
+        head, _, rest = l.partition(' | ')
+        return head, [(x.rsplit(':', 1)[0], int(x.rsplit(':', 1)[1])) for x in rest.split()]
+    for p in plan:
+        c = p['c']; data = dict(cfg=c['cfg'], pert=c['pert'])
+        res = out[p['off']:p['off'] + p['n']]
+        if len(res) < p['n'] or 'bad-op' in res:
+            ctx.broke('correspondence', 'C02.search', 'driver rejected the object graph', data=data); continue
+        h1, found = parse(res[-4]); safe = res[-3]; h2, sub = parse(res[-2])
+        reg = [x.rsplit(':', 1)[0] for x in res[-1].split()]
+        real_b = [esc(k) for k in c['perturbed']._c02_registry_at_init]; real_a = [esc(k) for k in c['base']._c02_registry_at_init]
+        ctx.count('search_graphs'); ctx.count('search_nodes', p['nodes']); ctx.count('search_added_objects', len(p['new']))
+        if 'final=1' not in h1 or 'final=1' not in h2:
+            ctx.broke('correspondence', 'C02.search', f'the model search did not finish within its fuel ({h1} / {h2})', data=data); continue
+        if reg != real_b:
+            i = next((i for i, (a, b) in enumerate(zip(reg, real_b)) if a != b), min(len(reg), len(real_b)))
+            ctx.broke('correspondence', 'C02.search', f'the model of sc.search names the distributions differently from the code: entry {i}: model {reg[i:i+2]} vs code {real_b[i:i+2]} ({len(reg)} vs {len(real_b)} entries)', data=data); continue
+        if [n for n, _ in found] != reg: ctx.count('search_flatten_collisions')
+        if c['pert']['kind'] == 'permute_diseases' or not p['new']: continue
+        ctx.count('search_frames')
+        if safe != '1':
+            ctx.broke('correspondence', 'C02.search-safe', 'the search follows a reference from an added object to an old object that has not been processed yet: '
+                      'the old object (and the distributions in it) is found under the added component\'s path (hypothesis of C02_search_frame fails)', data=data)
+        if sub != [(n, i) for n, i in found if i not in p['new']]:
+            ctx.broke('correspondence', 'C02.search-frame', 'the search without the added objects does not find the old distributions under the same names in the same order', data=data)
+        if [n for n, _ in sub] != real_a:
+            i = next((i for i, (a, b) in enumerate(zip([n for n, _ in sub], real_a)) if a != b), min(len(sub), len(real_a)))
+            ctx.broke('correspondence', 'C02.search-base', f'the perturbed simulation without its added objects is not the base simulation: old distribution {i} is named {[n for n, _ in sub][i:i+1]} there and {real_a[i:i+1]} in the base', data=data)
+
+
 def oracle(cfg, pert):
     """ real code only: base modules' results / states / edges identical with and without the perturbation """
-    a = build(cfg, None); a.init(); a.run()
+    a = build(cfg, dict(pert, base_only=True) if pert['kind'] == 'ghost_network' else None); a.init(); a.run()
     b = build(cfg, pert); b.init(); b.run()
     mods = base_modules(a) + ['__people__', '__sim__']
     sa = snap.everything(a, mods); sb = snap.everything(b, mods)
@@ -308,6 +415,12 @@ def search(ctx):
                        demographics=[dict(type='births', birth_rate=40), dict(type='deaths', death_rate=20)])
             pert = dict(kind=['ghost_intervention', 'ghost_analyzer'][it - 2], fams=['weibull', 'gamma', 'histogram', 'normal', 'expon'], name='ghost',
                         second=False, hold_ref=False, reset_pars=True, in_pars=(it == 3), own_dt=None)
+        if it == 4:
+            # always exercised: a network with zero transmissibility listed before two transmitting ones
+            cfg = dict(n_agents=150, rand_seed=200 + ctx.rng.randint(0, 50), unit='year', dt=1.0, start=2000, dur=8,
+                       diseases=[dict(type='sis', beta=0.3, init_prev=0.1, dur_inf=5, waning=0.05), dict(type='sir', beta=0.2, init_prev=0.1, dur_inf=4, p_death=0)],
+                       networks=[dict(type='random', n_contacts=4, dur=0), dict(type='mf', duration=3)], demographics=[])
+            pert = dict(kind='ghost_network', net='static', first=True)
         if not applicable(cfg, pert):
             cfg['diseases'] = [dict(type='sir', beta=0.3, init_prev=0.1, dur_inf=5, p_death=0)] + [d for d in cfg['diseases'] if d['type'] != 'sir']
         try:
